@@ -18,7 +18,7 @@ def is_trivial(line, mo):
 
 
 def generate(rng, tier):
-    nbuf = 24 if tier == "quick" else 96
+    nbuf = 24 if tier == "quick" else 300
     for _ in range(nbuf):
         ln = rng.randrange(0, 10)
         buf = bytes(rng.choice([0, 0xFF, rng.randrange(256)]) if rng.random() < 0.3 else rng.randrange(256)
@@ -40,7 +40,7 @@ def generate(rng, tier):
                 buf = rng.randbytes(ln)
                 for o in ("rint", "rbytes"):
                     yield f"{o} {hx(buf)} {base + off} {w}", "width-sweep"
-    nbig = 6 if tier == "quick" else 40
+    nbig = 6 if tier == "quick" else 160
     for _ in range(nbig):
         ln = rng.choice([100, 1000, 4096, 65535, 65536])
         buf = rng.randbytes(ln)
